@@ -25,7 +25,9 @@ CS = 'giscanner.cachestore.CacheStore.'
 contract('posix.stat', params={'path': 'str'}, returns='stat_result', pure_keys=['path'], trusted=True,
          raises={'FileNotFoundError': 'maybe', 'OSError': 'maybe'},
          note='modification time as a function of the path (no interference)')
-contract('posix.unlink', params={'path': 'str'}, trusted=True, raises={'OSError': 'maybe'})
+contract('posix.unlink', params={'path': 'str'}, trusted=True,
+         raises={'FileNotFoundError': 'maybe', 'PermissionError': 'maybe', 'OSError': 'maybe'},
+         note='FileNotFoundError: the entry vanished (e.g. removed by a concurrent scanner); OSError: any other errno')
 contract('io.open', params={'file': 'str', 'mode': 'str'}, returns='BufferedReader', fresh_result=True, trusted=True,
          raises={'OSError': 'maybe'})
 contract('_io.BufferedReader.__enter__', params={'self': 'BufferedReader'}, returns='BufferedReader', trusted=True)
@@ -56,8 +58,10 @@ contract(CS + '_cache_is_valid',
          note='an entry older than its source file is never reported valid; a missing entry is invalid')
 
 contract(CS + '_remove_filename', params={'self': 'CacheStore', 'filename': 'str'}, props=('C18',),
-         raises={'OSError': 'True'},
-         ensures={'C18.remove.unlinks_that_file': "all_calls('posix.unlink', 'arg_path == filename')"})
+         raises={'OSError': 'True', 'FileNotFoundError': 'False'},
+         ensures={'C18.remove.unlinks_that_file': "all_calls('posix.unlink', 'arg_path == filename')"},
+         note='an entry that has vanished in the meantime (another scanner discarded or purged it) is not an error: '
+              'FileNotFoundError never escapes; other OSErrors except EACCES may')
 
 contract(CS + '_get_filename', params={'self': 'CacheStore', 'filename': 'str'}, returns='str?',
          pure_keys=['self._directory', 'filename'], trusted=True,
